@@ -243,6 +243,50 @@ def mut_update_after(src):
     return replace_n(src, "        analysis_keys = list(self.BASE_KEYS)\n", upd + "        analysis_keys = list(self.BASE_KEYS)\n")
 
 
+# ---- twin audit (same-typed names written for each other, swapped argument order)
+def mut_passes_exchanged(src):
+    """(t1) the calls of forward_analyis and backward_analysis exchanged (twin methods of the same signature)"""
+    src = src.replace("        self.forward_analyis(analysis_keys, worklist)\n", "        self.BACKWARD_TMP(analysis_keys, worklist)\n")
+    src = src.replace("        self.backward_analysis(analysis_keys, worklist)\n", "        self.forward_analyis(analysis_keys, worklist)\n")
+    if src.count("        self.BACKWARD_TMP(analysis_keys, worklist)\n") != 2:
+        raise RuntimeError("mutation anchor not found: the two calls of forward_analyis")
+    return src.replace("        self.BACKWARD_TMP(analysis_keys, worklist)\n", "        self.backward_analysis(analysis_keys, worklist)\n")
+
+
+def mut_constraints_keys_base(src):
+    """(t2) the constraints are initialised for BASE_KEYS only (twin key lists)"""
+    return replace_n(src, "            self._block_level_constraints(all_keys, block)  # initialise information for all keys\n", "            self._block_level_constraints(self.BASE_KEYS, block)  # initialise information for all keys\n")
+
+
+def mut_update_base_keys(src):
+    """(t3) _update_gtxn_constraints is called with BASE_KEYS (twin class attributes)"""
+    return replace_n(src, "            self._update_gtxn_constraints(self.KEYS_WITH_GTXN, block)\n", "            self._update_gtxn_constraints(self.BASE_KEYS, block)\n")
+
+
+def mut_all_keys_order(src):
+    """(a1) all_keys = gtx_keys + self.BASE_KEYS"""
+    return replace_n(src, "        all_keys = self.BASE_KEYS + gtx_keys\n", "        all_keys = gtx_keys + self.BASE_KEYS\n")
+
+
+def mut_update_args(src):
+    """(a2) _update_gtxn_constraints: the two set arguments of _intersection swapped"""
+    return replace_n(
+        src,
+        "                        self._block_contexts[gtx_key][block],\n                        self._block_contexts[key][block],\n",
+        "                        self._block_contexts[key][block],\n                        self._block_contexts[gtx_key][block],\n",
+    )
+
+
+def mut_range_args(src):
+    """(a3) range(MAX_GROUP_SIZE, -(MAX_GROUP_SIZE - 1)): the two arguments of range exchanged"""
+    return replace_n(src, "            for offset in range(-(MAX_GROUP_SIZE - 1), MAX_GROUP_SIZE):\n", "            for offset in range(MAX_GROUP_SIZE, -(MAX_GROUP_SIZE - 1)):\n")
+
+
+def mut_key_helper_args(src):
+    """(a4) get_gtxn_at_index_key(key, ind) in run_analysis"""
+    return replace_n(src, "                gtx_keys.append(get_gtxn_at_index_key(ind, key))\n", "                gtx_keys.append(get_gtxn_at_index_key(key, ind))\n")
+
+
 MUTATIONS = [
     ("(i) `ind <= group_indices[-1] and ind in ..` (regression)", GEN, mut_sorted_assumption),
     ("(ii) relative offsets miss the most negative one", GEN, mut_offsets),
@@ -273,6 +317,13 @@ MUTATIONS = [
     ("(s7) unguarded read in a logging statement", GEN, mut_debug_read),
     ("(s8) statement after self._store_results()", GEN, mut_store_not_last),
     ("(s9) _update_gtxn_constraints outside the block loop", GEN, mut_gtxn_before_update),
+    ("(t1) TWIN forward / backward calls exchanged", GEN, mut_passes_exchanged),
+    ("(t2) TWIN constraints initialised for BASE_KEYS", GEN, mut_constraints_keys_base),
+    ("(t3) TWIN _update_gtxn_constraints(BASE_KEYS, ..)", GEN, mut_update_base_keys),
+    ("(a1) ARGS all_keys = gtx_keys + BASE_KEYS", GEN, mut_all_keys_order),
+    ("(a2) ARGS update: _intersection(key, y, x)", GEN, mut_update_args),
+    ("(a3) ARGS range(MAX, -(MAX - 1))", GEN, mut_range_args),
+    ("(a4) ARGS get_gtxn_at_index_key(key, ind)", GEN, mut_key_helper_args),
 ]
 REQUIRED = 5  # the first five rows are the mutations required by the task
 
